@@ -609,5 +609,87 @@ def r15_15(ctx):
     return r
 
 
+def _bound_pred(T, limit):
+    """guard predicate: this edge establishes  T <= limit  (T a term, compared with a constant)"""
+    def pred(term, meaning, *_):
+        neg, t = False, term
+        if t[0] == "un" and t[1] == "Not":
+            t, neg = t[2], True
+        if t[0] != "bin" or t[1] not in ("Gt", "Ge", "Lt", "Le") or not isinstance(meaning, bool):
+            return False
+        truth = meaning != neg
+        op, x, y = t[1], t[2], t[3]
+        cx, cy = mir.int_value(x), mir.int_value(y)
+        if x == T and isinstance(cy, int):
+            c = cy
+        elif y == T and isinstance(cx, int):
+            c = cx
+            op = {"Gt": "Lt", "Ge": "Le", "Lt": "Gt", "Le": "Ge"}[op]      # C op T  ->  T op' C
+        else:
+            return False
+        # normalised: T op c, with truth value `truth`
+        if op == "Gt":
+            return (not truth) and c <= limit
+        if op == "Ge":
+            return (not truth) and c - 1 <= limit
+        if op == "Le":
+            return truth and c <= limit
+        if op == "Lt":
+            return truth and c - 1 <= limit
+        return False
+    return pred
+
+
+def _self_bounded(T, limit):
+    """T is min(.., C) with C <= limit, or (.. BitAnd C) with C <= limit"""
+    if T[0] == "call" and T[1].endswith("::min") and len(T[2]) == 2:
+        return any(isinstance(mir.int_value(a), int) and mir.int_value(a) <= limit for a in T[2])
+    if T[0] == "bin" and T[1] == "BitAnd":
+        return any(isinstance(mir.int_value(a), int) and mir.int_value(a) <= limit for a in (T[2], T[3]))
+    return False
+
+
+def _strip_casts(t):
+    while t[0] == "cast":
+        t = t[1]
+    return t
+
+
+def r15_16(ctx):
+    """'REMB mantissa/exponent limits': the 18-bit mantissa is written as three masked pieces (`>> 16 & 0x03`, `>> 8 & 0xFF`,
+    `& 0xFF`). The masks silently drop bit 18 and up, so the value that reaches them has to be at most 0x3FFFF on every
+    path - otherwise the packet carries a different bitrate (2^k encodes as 0) and parse(marshal(p)) != p. Decided: the
+    term masked into the top two mantissa bits is, at that site, bounded by a comparison with a constant <= 0x3FFFF on
+    every path (the normalising loop's exit edge), or is itself a min()/mask with such a constant. This is the bounded-write
+    part; that the exponent counts exactly the shifts applied is R15.5's sibling rule."""
+    r = RuleResult("R15.16", "K1", "the REMB mantissa reaching the 18-bit field is at most 0x3FFFF")
+    b = ctx.body("rtp::build_remb_body")
+    r.scope.append(b.name)
+    sites = []
+    for bi, t, p in b.calls():
+        if not p or not p.endswith("::push"):
+            continue
+        for a in t["a"]:
+            for x in mir.walk(b.term_operand(a)):
+                if x[0] == "bin" and x[1] == "BitAnd" and 3 in (mir.int_value(x[2]), mir.int_value(x[3])):
+                    other = x[2] if mir.int_value(x[3]) == 3 else x[3]
+                    o = _strip_casts(other)
+                    if o[0] == "bin" and o[1] == "Shr" and mir.int_value(o[3]) == 16:
+                        sites.append((bi, _strip_casts(o[2])))
+    r.need("sites packing the top mantissa bits", len(sites), 1)
+    for bi, T in sites:
+        if _self_bounded(T, 0x3FFFF):
+            r.ok({"site": b.where(bi), "mantissa": mir.show(T, 60), "bounded": "by construction"})
+            continue
+        g = core.guard_edges(b, _bound_pred(T, 0x3FFFF))
+        if g and core.k1(b, [bi], g)[bi] is None:
+            r.ok({"site": b.where(bi), "mantissa": mir.show(T, 60), "bounded": "every path passes an edge establishing mantissa <= 0x3FFFF"})
+        else:
+            r.violate(b.name, "remb:mantissa-unbounded", b.where(bi),
+                      "the value packed into the 18-bit REMB mantissa (%s) is not bounded by 0x3FFFF on every path: bit 18 is dropped by the "
+                      "`& 0x03` mask and the packet carries another bitrate" % mir.show(T, 60))
+    return r
+
+
 def run(ctx):
-    return [r15_1(ctx), r15_2(ctx), r15_3(ctx), r15_4(ctx), r15_5(ctx), r15_6(ctx), r15_7(ctx), r15_8(ctx), r15_9(ctx), r15_10(ctx), r15_11(ctx), r15_12(ctx), r15_13(ctx), r15_14(ctx), r15_15(ctx)]
+    return [r15_1(ctx), r15_2(ctx), r15_3(ctx), r15_4(ctx), r15_5(ctx), r15_6(ctx), r15_7(ctx), r15_8(ctx), r15_9(ctx), r15_10(ctx), r15_11(ctx), r15_12(ctx), r15_13(ctx), r15_14(ctx), r15_15(ctx), r15_16(ctx)]
